@@ -1334,8 +1334,14 @@ int ov_raw_seek(OggVorbis_File *vf,ogg_int64_t pos){
           if(vf->vi[vf->current_link].codec_setup){
             thisblock=vorbis_packet_blocksize(vf->vi+vf->current_link,&op);
             if(thisblock<0){
-              ogg_stream_packetout(&vf->os,NULL);
-              thisblock=0;
+              /* not an audio packet; the decoder skips it as well, so
+                 it must not break the running block-size pair.  It is
+                 only taken off the decode queue when the packets in
+                 front of it are (the last-page case below); otherwise
+                 that would remove the first queued audio packet */
+              if(lastflag && !firstflag)
+                ogg_stream_packetout(&vf->os,NULL);
+              thisblock=lastblock;
             }else{
 
               /* We can't get a guaranteed correct pcm position out of the
